@@ -19,6 +19,12 @@ CLAIMED['C16'] = dict(
     text='Selection clause only. For all 42 multibinary entry points, in the AS_FEATURE_LEVEL 10/6/4 builds, every path through the real resolver code is enumerated from the assembled object; the CPUID/XCR0 facts known set on the path must imply (under an explicit, printed dependency relation) the ISA class of every instruction reachable from the symbol the path stores into the dispatch slot - through C wrappers into asm kernels; xgetbv is only executed after OSXSAVE was seen; the no-feature path selects baseline code. The obligation set (paths x reachable instructions) is finite and enumerated completely. That all variants compute the same results is NOT decided here. Known finding: BMI2 instructions behind AVX2/AVX-512-only tests (13 entry/symbol pairs, listed in known_findings.json).',
     note='Trusts nasm/objdump decoding, the hand-written fail-closed ISA table tools/isa.py, the dependency relation in props/c16.py, and clang IR for the C call graph / target-features. CPUID max-leaf validity is outside the examined bits.')
 
+CLAIMED['C01'] = dict(
+    category='other', design_ref='DESIGN.md section 3, C01',
+    technique='static analysis: exact evaluation of constant-table initialisers against an independent RFC 1951 canonical-code reference; compiler/assembler record-layout and constant mirror (offsetof vs FIELD/equ)',
+    text='Partial by design: decides three families of necessary conditions that hold or fail for every input at once, in all three documented window configurations (default, IGZIP_HIST_SIZE=8192, LONGER_HUFFTABLE): (1) every cell of the built-in level-0 Huffman tables and of the ICF fixed table equals the canonical code of the table\'s own stored deflate header / the RFC fixed code, with the shift/mask read from the consumers\' IR; (2) RFC 1951 constant tables, C and asm copies; (3) every FIELD/equ offset and every same-named integer constant agrees between the assembler and the C compiler for the deflate data structures, TMP-state enum arithmetic, wrapper/stored-block constants. That emitted streams decode to the input (match finders, state machine, bit packing) is NOT decided.',
+    note='Trusts clang/nasm constant evaluation and the checker\'s RFC 1951 reference (tools/rfc1951.py).')
+
 NOT_APPLICABLE = {
     'C07': 'quantifies over call histories and buffer schedules; resumption correctness depends on run-time counts carried in state, no structural clause beyond the state-enum mirror already checked under C01',
     'C09': 'algebraic property of run-time matrices (invertibility, products over GF(2^8)); nothing in the shape of the code decides it, and loop summarisation over symbolic (m,k) is out of reach of the analyses used',
